@@ -943,6 +943,7 @@ M.contract(P_READ + ':_SingleFileReader.__init__',
 M.contract(P_READ + ':_SingleFileReader._resolve_paths',
            params=dict(self=SINGLE_FILE_READER, test_suite=Iface(SuiteDocumentI), suite_file_path=Iface(PathI)),
            ghosts=dict(x=Int), old=lambda self: self._visited.copy(),
+           returns=FixedList(ListOf(Iface(PathI)), ListOf(Iface(PathI)), as_tuple=True),
            ensures={
                'accepted suite files were not visited before and are pairwise different (by resolved path)':
                    lambda self, result, old: _new_and_distinct(result[0], len(result[0]), old, self._visited),
@@ -973,6 +974,95 @@ M.loop(_CHK, 0, entry=lambda self: self._visited.copy(),
        and _new_and_distinct(paths_from_instruction, _i, _entry, self._visited)
        and _grown_by(x, paths_from_instruction, _i, _entry, self._visited),
        modifies={'self._visited': MapOf(Int, Any_), 'path': 'local', 'resolved_path': 'local'})
+
+# --- one suite file and, recursively, the suite files it includes
+from exactly_lib.section_document import exceptions as document_exceptions
+from exactly_lib.test_suite.file_reading import suite_file_reading
+
+P_SFR = 'exactly_lib.test_suite.file_reading.suite_file_reading'
+
+
+class ReaderEnvironmentI(Interface):
+    target_class = suite_hierarchy_reading.Environment
+    attrs = {'configuration_section_parser': Any_, 'test_case_parsing_setup': Any_,
+             'default_test_case_handling_setup': Any_}
+
+
+def _mk_parse_error(interp, o):
+    """some ParseError of the document parser (FileSourceError / FileAccessError): C07"""
+    if interp.st.choose(2) == 0:
+        e = document_exceptions.FileAccessError.__new__(document_exceptions.FileAccessError)
+        e._erroneous_path = Any_.make(interp, 'erroneous_path')
+        e._section_name = Opt(Str).make(interp, 'section_name')
+    else:
+        e = document_exceptions.FileSourceError.__new__(document_exceptions.FileSourceError)
+        e._maybe_section_name = Opt(Str).make(interp, 'section_name')
+        e._source_location_info = Any_.make(interp, 'source_location_info')
+        e._source = Any_.make(interp, 'source')
+    e._message = Str.make(interp, 'message')
+    e._location_path = Any_.make(interp, 'location_path')
+    return e
+
+
+class SuiteFileParserI(Interface):
+    """suite_file_reading._Parser: the parsed document, or a ParseError of the section document parser"""
+    methods = {'apply': Method(returns=Iface(SuiteDocumentI), may_raise=(_mk_parse_error,))}
+
+
+M.model(suite_file_reading._Parser, lambda interp, args, kwargs: new_opaque(interp, SuiteFileParserI, 'suite_parser'))
+M.assume('the parser of a suite file (suite_file_reading._Parser.apply, i.e. the section document parser) returns the '
+         'document or raises a section_document ParseError (syntax error, inaccessible file): C07')
+
+M.contract(P_SFR + ':read_suite_document',
+           params=dict(suite_file_path=Iface(PathI), configuration_section_parser=Any_, test_case_parsing_setup=Any_),
+           returns=Iface(SuiteDocumentI), modifies={},
+           raises={suite_exception.SuiteParseError: {}},      # a syntax error / unreadable suite file
+           raises_only=())
+
+# which handling setup a suite file gives its cases is C17
+M.contract(P_SFR + ':resolve_test_case_handling_setup', trusted=True, modifies={},
+           params=dict(test_suite=Any_, default_handling_setup=Any_), returns=Any_)
+M.trust('suite_file_reading.resolve_test_case_handling_setup returns the handling setup of the suite (C17) and does '
+        'not raise')
+
+READER_IN_PROGRESS = Inst(suite_hierarchy_reading._SingleFileReader, environment=Iface(ReaderEnvironmentI),
+                          _root_suite_file_path=Iface(PathI), _visited=MapOf(Int, Any_))
+
+_READ_OUTCOMES = {suite_exception.SuiteParseError: {}, suite_exception.SuiteDoubleInclusion: {},
+                  suite_exception.SuiteFileReferenceError: {}}
+
+M.contract(P_READ + ':_SingleFileReader.__call__',
+           params=dict(self=READER_IN_PROGRESS, inclusions=ListOf(Iface(PathI)), suite_file_path=Iface(PathI)),
+           returns=Inst(structure.TestSuiteHierarchy,
+                        _TestSuiteHierarchy__source_file=Iface(PathI),
+                        _TestSuiteHierarchy__suite_file_inclusions_leading_to_this_file=Any_,
+                        _TestSuiteHierarchy__test_case_handling_setup=Any_,
+                        _TestSuiteHierarchy__sub_test_suites=ListOf(Any_),
+                        _TestSuiteHierarchy__test_cases=ListOf(Any_)),
+           old=lambda self: self._visited.copy(), modifies={},
+           ensures={
+               'suite files once visited stay visited': lambda self, old: keys_subset(old, self._visited),
+           },
+           raises=dict(_READ_OUTCOMES),     # nothing but the three kinds of SuiteReadError
+           raises_only=())
+
+M.loop(P_READ + ':_SingleFileReader.__call__', 'map#0', entry=lambda self: self._visited.copy(),
+       invariant=lambda _i, _entry, self, out: keys_subset(_entry, self._visited) and len(out) == _i,
+       modifies={'out': ListOf(Any_), 'self._visited': MapOf(Int, Any_), 'element': 'local'})
+M.loop(P_READ + ':_SingleFileReader.__call__', 'map#1',
+       invariant=lambda _i, out: len(out) == _i,
+       modifies={'out': ListOf(Any_), 'element': 'local'})
+
+M.contract(P_READ + ':_SingleFileReader.apply', params=dict(self=READER_IN_PROGRESS), inline=True, modifies={},
+           old=lambda self: self._visited.copy(),
+           ensures={'suite files once visited stay visited': lambda self, old: keys_subset(old, self._visited)},
+           raises=dict(_READ_OUTCOMES), raises_only=())
+
+M.contract(P_READ + ':Reader.apply',
+           params=dict(self=Inst(suite_hierarchy_reading.Reader, _environment=Iface(ReaderEnvironmentI)),
+                       suite_file_path=Iface(PathI)), modifies={},
+           raises=dict(_READ_OUTCOMES),     # SuiteHierarchyReader.apply: ":raises SuiteReadError", nothing else
+           raises_only=())
 
 # ------------------------------------------------------------------------------ file names of an instruction
 import stat as _stat
